@@ -143,7 +143,7 @@ static int runProc(const std::vector<std::string> &argv, const std::vector<std::
 }
 
 int main(int argc, char **argv) {
-  ctx = parse_args("C12", argc, argv, 150, 1500);
+  ctx = parse_args("C12", argc, argv, 400, 1500);
   if (chdir(ctx.scratch.c_str())) harness_fail("chdir");
   Report rep; rep.ctx = ctx;
   int maxK = ctx.thorough() ? 4 : 3;
